@@ -308,6 +308,12 @@ class RendererHTML(RendererProtocol):
 
         return self.renderToken(tokens, idx, options, env)
 
+    def definition(
+        self, tokens: Sequence[Token], idx: int, options: OptionsDict, env: EnvType
+    ) -> str:
+        # reference definitions (kept with the inline_definitions option) have no output
+        return ""
+
     def hardbreak(
         self, tokens: Sequence[Token], idx: int, options: OptionsDict, env: EnvType
     ) -> str:
